@@ -36,3 +36,25 @@
 (push) (assert (not (natval_prefix_le x ox k k))) (check-sat) (pop)
 (push) (assert (<= 0 k)) (assert (<= k m)) (assert (natval_prefix_le x ox k m)) (assert (unfold_natval x ox (+ m 1))) (assert (natval_lt_pow10 x ox m))
  (assert (not (natval_prefix_le x ox k (+ m 1)))) (check-sat) (pop)
+; scaled_add: induction on b
+(declare-const v Int) (declare-const b Int)
+(push) (assert (unfold_scaled (scaled v a) 0)) (assert (not (scaled_add v a 0))) (check-sat) (pop)
+(push) (assert (>= b 0)) (assert (>= a 0)) (assert (scaled_add v a b)) (assert (unfold_scaled (scaled v a) (+ b 1))) (assert (unfold_scaled v (+ a b 1))) (assert (not (scaled_add v a (+ b 1)))) (check-sat) (pop)
+; scaled_sign: induction on k
+(push) (assert (unfold_scaled v 0)) (assert (not (scaled_sign v 0))) (check-sat) (pop)
+(push) (assert (>= k 0)) (assert (scaled_sign v k)) (assert (unfold_scaled v (+ k 1))) (assert (not (scaled_sign v (+ k 1)))) (check-sat) (pop)
+; natval_leading_zero: induction on k from 1
+(push) (assert (unfold_natval x ox 1)) (assert (unfold_natval x ox 0)) (assert (unfold_natval x (+ ox 1) 0)) (assert (not (natval_leading_zero x ox 1))) (check-sat) (pop)
+(push) (assert (>= k 1)) (assert (natval_leading_zero x ox k)) (assert (unfold_natval x ox (+ k 1))) (assert (unfold_natval x (+ ox 1) k)) (assert (not (natval_leading_zero x ox (+ k 1)))) (check-sat) (pop)
+; natval_append_zeros: induction on z
+(declare-const z Int)
+(push) (assert (unfold_scaled (natval x ox k) 0)) (assert (not (natval_append_zeros x ox k 0))) (check-sat) (pop)
+(push) (assert (>= z 0)) (assert (>= k 0)) (assert (natval_append_zeros x ox k z)) (assert (unfold_natval x ox (+ k z 1))) (assert (unfold_scaled (natval x ox k) (+ z 1)))
+ (assert (not (natval_append_zeros x ox k (+ z 1)))) (check-sat) (pop)
+; scaled_shift: induction on k
+(push) (assert (unfold_scaled (* 10 v) 0)) (assert (unfold_scaled v 1)) (assert (unfold_scaled v 0)) (assert (not (scaled_shift v 0))) (check-sat) (pop)
+(push) (assert (>= k 0)) (assert (scaled_shift v k)) (assert (unfold_scaled (* 10 v) (+ k 1))) (assert (unfold_scaled v (+ k 2))) (assert (not (scaled_shift v (+ k 1)))) (check-sat) (pop)
+; scaled_inj: induction on k
+(declare-const b2 Int)
+(push) (assert (unfold_scaled v 0)) (assert (unfold_scaled b2 0)) (assert (not (scaled_inj v b2 0))) (check-sat) (pop)
+(push) (assert (>= k 0)) (assert (scaled_inj v b2 k)) (assert (unfold_scaled v (+ k 1))) (assert (unfold_scaled b2 (+ k 1))) (assert (not (scaled_inj v b2 (+ k 1)))) (check-sat) (pop)
